@@ -21,6 +21,10 @@ func getIndelsPair(ref, query []byte, offsetRefCoord []int, offsetMSACoord []int
 
 	variants := make([]Variant, 0)
 
+	// the number of reference bases to the left of the current alignment column
+	// (offsetMSACoord is 0 at columns that are gaps in the reference, so it can't be used to place insertions)
+	refBases := 0
+
 	for pos := range ref {
 		if ref[pos] == 244 { // insertion relative to reference (somewhere in the alignment)
 			if query[pos] == 244 { // insertion is not in this seq
@@ -29,14 +33,15 @@ func getIndelsPair(ref, query []byte, offsetRefCoord []int, offsetMSACoord []int
 				if insOpen { // not the first position of an insertion
 					insLength++ // we increment the length counter
 				} else { // the first position of an insertion
-					insStart = pos // we record the first position of the insertion 0-based in alignment coordinates
+					insStart = refBases // the insertion is immediately after this (1-based) reference position
 					insLength = 1
 					insOpen = true
 				}
 			}
 		} else { // not an insertion relative to the reference at this position
+			refBases++
 			if insOpen { // first base after an insertion, so we need to log the insertion
-				variants = append(variants, Variant{Changetype: "ins", Position: (insStart - offsetMSACoord[insStart]), Length: insLength})
+				variants = append(variants, Variant{Changetype: "ins", Position: insStart, Length: insLength})
 				insOpen = false
 			}
 			if query[pos] == 244 { // deletion in this seq
@@ -64,7 +69,7 @@ func getIndelsPair(ref, query []byte, offsetRefCoord []int, offsetMSACoord []int
 	// }
 	// catch insertions that abut the end of the alignment
 	if insOpen {
-		variants = append(variants, Variant{Changetype: "ins", Position: (insStart - offsetMSACoord[insStart]) + 1, Length: insLength})
+		variants = append(variants, Variant{Changetype: "ins", Position: insStart, Length: insLength})
 	}
 
 	return variants
